@@ -1,18 +1,18 @@
 PROPS["C18"] = dict(
-    jobs=[job("asan", "c18_safety", flavour="asan", cases={Q: 6000, T: 400000}),
-          job("bounds", "c18_safety", flavour="fast", cases={Q: 20000, T: 2000000})],
+    jobs=[job("asan", "c18_safety", flavour="asan", cases={Q: 7500, T: 500000}),
+          job("bounds", "c18_safety", flavour="fast", cases={Q: 25000, T: 2500000})],
     crash_is_violation=True,
     timeout={"quick": 3600, "thorough": 8 * 3600},
-    rule="four workloads in rotation, every case in a forked child (64 cases per Teakra instance, case index journaled "
+    rule="five workloads in rotation, every case in a forked child (64 cases per Teakra instance, case index journaled "
          "before it runs): prog = random code windows (50% raw words, 40% encodings of a random handler, 10% control-flow "
          "specials) incl. the last words of program space, random well-formed register state + status/config words written "
          "all-ones/zeros, 1-2000 cycles; mmio = writes/reads of documented and random offsets with interesting values through "
          "host and DSP paths interleaved with Run; dma = DMA/AHBM configuration fuzz over spaces, sizes (<= 2^20 elements), "
-         "address high words, callbacks installed; host = in-contract API calls with extreme arguments. Oracles: ASan+UBSan "
+         "address high words, callbacks installed; host = in-contract API calls with extreme arguments; firmware = one of the four shipped tester firmwares (hwtest/*/data/cdc.bin) driven by random host commands, mailbox and semaphore traffic. Oracles: ASan+UBSan "
          "(asan job), SharedMemory bounds observer, outcome classes, 25 s no-progress watchdog (confirmed by a second run). "
          "distinct_nontrivial = distinct (workload, ending class, deliberate assertion reached) triples observed",
-    floors={Q: {"cases_prog": 20000, "cases_mmio": 20000, "cases_dma": 20000, "cases_host": 20000, "ending_assert": 1000, "ending_unimplemented": 500},
-            T: {"cases_prog": 1000000, "cases_mmio": 1000000, "cases_dma": 1000000, "cases_host": 1000000, "ending_assert": 50000, "ending_unimplemented": 20000}},
+    floors={Q: {"cases_prog": 20000, "cases_mmio": 20000, "cases_dma": 20000, "cases_host": 20000, "cases_firmware": 20000, "ending_assert": 1000, "ending_unimplemented": 500},
+            T: {"cases_prog": 1000000, "cases_mmio": 1000000, "cases_dma": 1000000, "cases_host": 1000000, "cases_firmware": 1000000, "ending_assert": 50000, "ending_unimplemented": 20000}},
     ready=True,
     technique="runtime monitoring: ASan+UBSan build and a DSP-memory bounds observer under program/MMIO/DMA/host-call fuzzing with per-case process isolation",
     level_text="Exploration: fuzzed guest programs, MMIO sequences, DMA configurations and host calls on the real facade under AddressSanitizer+UBSan plus an observer on the single DSP-memory choke point (far out-of-bounds accesses are invisible to ASan); each abort/hang is attributed to one journaled case.",
